@@ -7,7 +7,7 @@ From Coq.Strings Require Import Byte.
 From Verif.Base Require Import Bytes Outcome.
 From Verif.Model Require Import IE Codec Record SetB Msg Decode Frame E2E.
 From Verif.Proofs Require Import Decode_roundtrip E2E_lemmas C01_lemmas.
-From Verif.Driver Require Import C11drv C01drv.
+From Verif.Driver Require Import C11drv C01single.
 Import ListNotations.
 Local Open Scope N_scope.
 
